@@ -647,3 +647,358 @@ Proof.
   cbn beta iota. unfold resolve3. unfold resolve_fn at 1. cbn [Nat.ltb Nat.leb].
   rewrite !(resolve_fn_op_rooted _ _ _ _ Hb). reflexivity.
 Qed.
+
+(* ------------------------------------------------------------------ *)
+(* T3.proj: applying a filled projection = the direct call with the positionally filled arguments *)
+
+Lemma enter_tail fin fm tx pf fuel st (x b : term) full n :
+  op_rooted b = true -> (n <= length full)%nat ->
+  (let '(n0, holes, args) := merged_info (MArr full) in
+   if (n0 <? n)%nat || holes then (Ok x, st)
+   else
+     let '(o, k, st1) := eval_args (eval fin fm tx pf fuel) st (firstn 3 args) in
+     match o with
+     | None => (Err k, st1)
+     | Some vs =>
+         let (c2, f1) := bind_frame b vs in
+         let (r, st2) :=
+           match f1 with
+           | TPy id params =>
+               (match lookup_all params (frames (push c2 st1)) with
+                | Some vals => pf id vals
+                | None => Err EUndef
+                end, push c2 st1)
+           | _ => callv (eval fin fm tx pf fuel) (push c2 st1) f1
+           end in
+         match r with
+         | Ok _ => (r, pop st2)
+         | Err _ => if fin then (r, pop st2) else (r, st2)
+         end
+     end) = enter fin fm tx pf fuel st b full.
+Proof.
+  intros Hb Hn. cbn [merged_info]. unfold enter.
+  assert ((length full <? n)%nat = false) as -> by (apply Nat.ltb_ge; exact Hn). cbn [orb].
+  destruct (eval_args (eval fin fm tx pf fuel) st (firstn 3 full)) as [[o k] st1].
+  destruct o as [vs|]; [|reflexivity].
+  unfold bind_frame, callv. destruct b; try discriminate Hb; reflexivity.
+Qed.
+
+(* one step: g::f(P1) ; g(a2) *)
+Lemma proj_call1 fin tx pf fuel st g cg f cf b P1 n1 n a2 n2 :
+  op_rooted b = true -> is_reserved g = false -> is_reserved f = false ->
+  ctx_lookup g (frames st) = Some (TFn cg (TSym f) (Some P1) n1) ->
+  ctx_lookup f (frames st) = Some (TFn cf b None n) ->
+  existsb is_none P1 = true -> (0 < n1)%nat -> (0 < n2)%nat ->
+  (n <= length (fill_all P1 [a2]))%nat ->
+  eval fin true tx pf (S fuel) st (TFn true (TSym g) (Some a2) n2)
+  = enter fin true tx pf fuel st b (fill_all P1 [a2]).
+Proof.
+  intros Hb Hg Hf Lg Lf Hh H1 H2 Hn. cbn [eval eval_step]. unfold eval_fn.
+  assert (Hr : resolve3 (frames st) (TSym g) [Some a2] n2 = Some (b, [Some a2; Some P1], n)).
+  { unfold resolve3. unfold resolve_fn at 1. rewrite Lg. cbn [is_kgfn orb].
+    assert ((0 <? n2)%nat = true) as -> by (apply Nat.ltb_lt; exact H2).
+    cbn [has_none]. rewrite Hh. cbn [app].
+    unfold resolve_fn at 1. rewrite Lf. cbn [is_kgfn orb].
+    assert ((0 <? n1)%nat = true) as -> by (apply Nat.ltb_lt; exact H1).
+    apply resolve_fn_op_rooted. exact Hb. }
+  rewrite Hr. cbn [rev app].
+  change [Some P1; Some a2] with (Some P1 :: map Some [a2]).
+  rewrite merge_fill_all by (assumption || discriminate).
+  apply enter_tail; assumption.
+Qed.
+
+(* two steps: g::f(P1) ; h::g(P2) ; h(a3) — the three resolution passes are exactly enough *)
+Lemma proj_call2 fin tx pf fuel st h ch g cg f cf b P1 n1 P2 n2 n a3 n3 :
+  op_rooted b = true -> is_reserved h = false -> is_reserved g = false -> is_reserved f = false ->
+  ctx_lookup h (frames st) = Some (TFn ch (TSym g) (Some P2) n2) ->
+  ctx_lookup g (frames st) = Some (TFn cg (TSym f) (Some P1) n1) ->
+  ctx_lookup f (frames st) = Some (TFn cf b None n) ->
+  existsb is_none P1 = true -> existsb is_none P2 = true ->
+  (0 < n1)%nat -> (0 < n2)%nat -> (0 < n3)%nat ->
+  (n <= length (fill_all P1 [P2; a3]))%nat ->
+  eval fin true tx pf (S fuel) st (TFn true (TSym h) (Some a3) n3)
+  = enter fin true tx pf fuel st b (fill_all P1 [P2; a3]).
+Proof.
+  intros Hb Hh Hg Hf Lh Lg Lf Hh1 Hh2 H1 H2 H3 Hn. cbn [eval eval_step]. unfold eval_fn.
+  assert (Hr : resolve3 (frames st) (TSym h) [Some a3] n3 = Some (b, [Some a3; Some P2; Some P1], n)).
+  { unfold resolve3. unfold resolve_fn at 1. rewrite Lh. cbn [is_kgfn orb].
+    assert ((0 <? n3)%nat = true) as -> by (apply Nat.ltb_lt; exact H3).
+    cbn [has_none]. rewrite Hh2. cbn [app].
+    unfold resolve_fn at 1. rewrite Lg. cbn [is_kgfn orb].
+    assert ((0 <? n2)%nat = true) as -> by (apply Nat.ltb_lt; exact H2).
+    cbn [has_none]. rewrite Hh1. cbn [app].
+    unfold resolve_fn. rewrite Lf. cbn [is_kgfn orb].
+    assert ((0 <? n1)%nat = true) as -> by (apply Nat.ltb_lt; exact H1). reflexivity. }
+  rewrite Hr. cbn [rev app].
+  change [Some P1; Some P2; Some a3] with (Some P1 :: map Some [P2; a3]).
+  rewrite merge_fill_all by (assumption || discriminate).
+  apply enter_tail; assumption.
+Qed.
+
+Lemma proj_is_direct fin tx pf fuel st g cg f cf b P1 n1 n a2 n2 h ch P2 n2' a3 n3 :
+  op_rooted b = true -> is_reserved g = false -> is_reserved f = false -> is_reserved h = false ->
+  ctx_lookup g (frames st) = Some (TFn cg (TSym f) (Some P1) n1) ->
+  ctx_lookup f (frames st) = Some (TFn cf b None n) ->
+  ctx_lookup h (frames st) = Some (TFn ch (TSym g) (Some P2) n2') ->
+  existsb is_none P1 = true -> existsb is_none P2 = true ->
+  (0 < n1)%nat -> (0 < n2)%nat -> (0 < n2')%nat -> (0 < n3)%nat ->
+  (* one fill *)
+  (existsb is_none (fill_all P1 [a2]) = false -> (n <= length (fill_all P1 [a2]))%nat -> (0 < length (fill_all P1 [a2]))%nat ->
+   eval fin true tx pf (S fuel) st (TFn true (TSym g) (Some a2) n2)
+   = eval fin true tx pf (S fuel) st (TFn true (TSym f) (Some (fill_all P1 [a2])) (length (fill_all P1 [a2])))) /\
+  (* two fills, in any hole order *)
+  (existsb is_none (fill_all P1 [P2; a3]) = false -> (n <= length (fill_all P1 [P2; a3]))%nat -> (0 < length (fill_all P1 [P2; a3]))%nat ->
+   eval fin true tx pf (S fuel) st (TFn true (TSym h) (Some a3) n3)
+   = eval fin true tx pf (S fuel) st (TFn true (TSym f) (Some (fill_all P1 [P2; a3])) (length (fill_all P1 [P2; a3])))).
+Proof.
+  intros Hb Hg Hf Hh Lg Lf Lh H1 H2 P1n P2n P2n' P3n. split; intros Hfull Hn Hpos.
+  - rewrite (proj_call1 fin tx pf fuel st g cg f cf b P1 n1 n a2 n2) by assumption.
+    symmetry. apply (var_call fin true tx pf fuel st f cf b (fill_all P1 [a2]) n (length (fill_all P1 [a2]))); assumption.
+  - rewrite (proj_call2 fin tx pf fuel st h ch g cg f cf b P1 n1 P2 n2' n a3 n3) by assumption.
+    symmetry. apply (var_call fin true tx pf fuel st f cf b (fill_all P1 [P2; a3]) n (length (fill_all P1 [P2; a3]))); assumption.
+Qed.
+
+(* ------------------------------------------------------------------ *)
+(* T3.resume: evaluation only observes the value of each variable at each frame level.
+   Two states whose stacks agree level by level, variable by variable (however the frames are
+   laid out, whatever the ghost log says) evaluate every program to the same result and to
+   states that agree again. *)
+
+Definition feq (f f' : frame) : Prop := forall v, lookup v f = lookup v f'.
+Definition sequiv (a b : state) : Prop := Forall2 feq (frames a) (frames b).
+
+Lemma feq_refl f : feq f f.
+Proof. intros v; reflexivity. Qed.
+
+Lemma sequiv_refl s : sequiv s s.
+Proof. unfold sequiv. induction (frames s); constructor; auto using feq_refl. Qed.
+
+Lemma ctx_lookup_feq k fr fr' : Forall2 feq fr fr' -> ctx_lookup k fr = ctx_lookup k fr'.
+Proof. induction 1 as [|f f' r r' Hf Hr IH]; cbn [ctx_lookup]; [reflexivity|]. rewrite (Hf k), IH. reflexivity. Qed.
+
+Lemma frame_set_feq k v f f' : feq f f' -> feq (frame_set k v f) (frame_set k v f').
+Proof.
+  intros H u. destruct (Z.eq_dec u k) as [->|Hne].
+  - rewrite !lookup_frame_set_same. reflexivity.
+  - rewrite !lookup_frame_set_other by exact Hne. apply H.
+Qed.
+
+Lemma set_existing_feq k v fr fr' : Forall2 feq fr fr' ->
+  match set_existing k v fr, set_existing k v fr' with
+  | Some (a, _), Some (b, _) => Forall2 feq a b
+  | None, None => True
+  | _, _ => False
+  end.
+Proof.
+  induction 1 as [|f f' r r' Hf Hr IH]; cbn [set_existing]; [exact I|].
+  rewrite <- (Hf k). destruct (lookup k f).
+  - constructor; [apply frame_set_feq; exact Hf|exact Hr].
+  - destruct (set_existing k v r) as [[a la]|], (set_existing k v r') as [[b lb]|]; try contradiction; [|exact I].
+    constructor; assumption.
+Qed.
+
+Lemma ctx_set_equiv k v s1 s2 : sequiv s1 s2 -> sequiv (ctx_set k v s1) (ctx_set k v s2).
+Proof.
+  unfold sequiv, ctx_set. intros H.
+  assert (Hin : Forall2 feq
+            (frames match frames s1 with [] => s1 | f :: r => mk_state (frame_set k v f :: r) ((k, length r) :: log s1) end)
+            (frames match frames s2 with [] => s2 | f :: r => mk_state (frame_set k v f :: r) ((k, length r) :: log s2) end)).
+  { inversion H as [E1 E2|f f' r r' Hf Hr E1 E2].
+    - rewrite <- E1, <- E2. constructor.
+    - cbn [frames]. constructor; [apply frame_set_feq; exact Hf|exact Hr]. }
+  destruct (is_reserved k); [exact Hin|].
+  pose proof (set_existing_feq k v _ _ H) as HS.
+  destruct (set_existing k v (frames s1)) as [[a la]|], (set_existing k v (frames s2)) as [[b lb]|]; try contradiction;
+    [exact HS|exact Hin].
+Qed.
+
+Lemma push_equiv c s1 s2 : sequiv s1 s2 -> sequiv (push c s1) (push c s2).
+Proof. unfold sequiv, push; cbn [frames]. intros H. constructor; [apply feq_refl|exact H]. Qed.
+
+Lemma pop_equiv s1 s2 : sequiv s1 s2 -> sequiv (pop s1) (pop s2).
+Proof. unfold sequiv, pop; cbn [frames]. intros H. inversion H; cbn [tl]; [constructor|assumption]. Qed.
+
+Lemma resolve_fn_equiv fr fr' f fa n : Forall2 feq fr fr' -> resolve_fn fr f fa n = resolve_fn fr' f fa n.
+Proof. intros H. unfold resolve_fn. destruct f; try reflexivity. rewrite (ctx_lookup_feq s _ _ H). reflexivity. Qed.
+
+Lemma resolve3_equiv fr fr' f fa n : Forall2 feq fr fr' -> resolve3 fr f fa n = resolve3 fr' f fa n.
+Proof.
+  intros H. unfold resolve3. rewrite (resolve_fn_equiv _ _ _ _ _ H).
+  destruct (resolve_fn fr' f fa n) as [[[f1 a1] n1]|]; [|reflexivity].
+  rewrite (resolve_fn_equiv _ _ _ _ _ H).
+  destruct (resolve_fn fr' f1 a1 n1) as [[[f2 a2] n2]|]; [|reflexivity].
+  apply resolve_fn_equiv. exact H.
+Qed.
+
+Lemma lookup_all_equiv ks fr fr' : Forall2 feq fr fr' -> lookup_all ks fr = lookup_all ks fr'.
+Proof. intros H. induction ks as [|k r IH]; cbn [lookup_all]; [reflexivity|]. rewrite (ctx_lookup_feq k _ _ H), IH. reflexivity. Qed.
+
+Definition ev_resp (ev : state -> term -> res * state) : Prop :=
+  forall s1 s2 t, sequiv s1 s2 -> fst (ev s1 t) = fst (ev s2 t) /\ sequiv (snd (ev s1 t)) (snd (ev s2 t)).
+
+Section StepResp.
+  Variables (fin fm tx : bool) (pf : Z -> list term -> res).
+  Variable ev : state -> term -> res * state.
+  Hypothesis Hev : ev_resp ev.
+
+  Ltac two E1 E2 s1 s2 t H :=
+    let Hr := fresh "Hr" in let Hs := fresh "Hs" in
+    destruct (Hev s1 s2 t H) as [Hr Hs];
+    destruct (ev s1 t) as [?r ?s] eqn:E1; destruct (ev s2 t) as [?r ?s] eqn:E2;
+    cbn [fst snd] in Hr, Hs; subst.
+
+  Lemma callv_resp s1 s2 t : sequiv s1 s2 ->
+    fst (callv ev s1 t) = fst (callv ev s2 t) /\ sequiv (snd (callv ev s1 t)) (snd (callv ev s2 t)).
+  Proof. unfold callv. apply Hev. Qed.
+
+  Lemma eval_args_resp l : forall s1 s2, sequiv s1 s2 ->
+    fst (eval_args ev s1 l) = fst (eval_args ev s2 l) /\ sequiv (snd (eval_args ev s1 l)) (snd (eval_args ev s2 l)).
+  Proof.
+    induction l as [|q r IH]; intros s1 s2 H; cbn [eval_args].
+    - split; [reflexivity|exact H].
+    - destruct (callv_resp s1 s2 q H) as [Hr Hs].
+      destruct (callv ev s1 q) as [r1 s1'], (callv ev s2 q) as [r2 s2']. cbn [fst snd] in *. subst r2.
+      destruct r1 as [v|k]; [|split; [reflexivity|exact Hs]].
+      destruct (IH _ _ Hs) as [Hr2 Hs2].
+      destruct (eval_args ev s1' r) as [[o1 k1] t1], (eval_args ev s2' r) as [[o2 k2] t2]. cbn [fst snd] in *.
+      inversion Hr2; subst. destruct o2; split; try reflexivity; exact Hs2.
+  Qed.
+
+  Lemma eval_seq_resp l : forall s1 s2 last, sequiv s1 s2 ->
+    fst (eval_seq ev s1 l last) = fst (eval_seq ev s2 l last) /\
+    sequiv (snd (eval_seq ev s1 l last)) (snd (eval_seq ev s2 l last)).
+  Proof.
+    induction l as [|y l IH]; intros s1 s2 last H; cbn [eval_seq].
+    - split; [reflexivity|exact H].
+    - destruct (callv_resp s1 s2 y H) as [Hr Hs].
+      destruct (callv ev s1 y) as [r1 s1'], (callv ev s2 y) as [r2 s2']. cbn [fst snd] in *. subst r2.
+      destruct r1 as [v|k]; [apply IH; exact Hs|split; [reflexivity|exact Hs]].
+  Qed.
+
+  Lemma eval_fn_resp s1 s2 x xa xargs xarity : sequiv s1 s2 ->
+    fst (eval_fn fin fm pf ev s1 x xa xargs xarity) = fst (eval_fn fin fm pf ev s2 x xa xargs xarity) /\
+    sequiv (snd (eval_fn fin fm pf ev s1 x xa xargs xarity)) (snd (eval_fn fin fm pf ev s2 x xa xargs xarity)).
+  Proof.
+    intros H. unfold eval_fn. rewrite (resolve3_equiv _ _ _ _ _ H).
+    destruct (resolve3 (frames s2) xa [xargs] xarity) as [[[f f_args] f_arity]|]; [|split; [reflexivity|exact H]].
+    destruct (merge_projections fm (rev f_args)) as [a|l|] eqn:EM; [| |split; [reflexivity|exact H]].
+    all: match goal with |- context [merged_info ?m] => destruct (merged_info m) as [[n holes] args] end.
+    all: destruct ((n <? f_arity)%nat || holes); [split; [reflexivity|exact H]|].
+    all: destruct (eval_args_resp (firstn 3 args) s1 s2 H) as [Hr Hs].
+    all: destruct (eval_args ev s1 (firstn 3 args)) as [[o1 k1] t1], (eval_args ev s2 (firstn 3 args)) as [[o2 k2] t2].
+    all: cbn [fst snd] in Hr, Hs; inversion Hr; subst.
+    all: destruct o2 as [vs|]; [|split; [reflexivity|exact Hs]].
+    all: destruct (bind_frame f vs) as [c2 f1].
+    all: pose proof (push_equiv c2 _ _ Hs) as Hp.
+    all: assert (Hbody : fst (match f1 with
+                               | TPy id params => (match lookup_all params (frames (push c2 t1)) with Some vals => pf id vals | None => Err EUndef end, push c2 t1)
+                               | _ => callv ev (push c2 t1) f1 end)
+                         = fst (match f1 with
+                               | TPy id params => (match lookup_all params (frames (push c2 t2)) with Some vals => pf id vals | None => Err EUndef end, push c2 t2)
+                               | _ => callv ev (push c2 t2) f1 end) /\
+                         sequiv (snd (match f1 with
+                               | TPy id params => (match lookup_all params (frames (push c2 t1)) with Some vals => pf id vals | None => Err EUndef end, push c2 t1)
+                               | _ => callv ev (push c2 t1) f1 end))
+                                (snd (match f1 with
+                               | TPy id params => (match lookup_all params (frames (push c2 t2)) with Some vals => pf id vals | None => Err EUndef end, push c2 t2)
+                               | _ => callv ev (push c2 t2) f1 end)))
+        by (destruct f1; try (apply callv_resp; exact Hp);
+            cbn [fst snd]; rewrite (lookup_all_equiv _ _ _ Hp); split; [reflexivity|exact Hp]).
+    all: destruct Hbody as [Hb1 Hb2].
+    all: match goal with |- context [let (r, st2) := ?X in _] =>
+           destruct X as [ra sa] end.
+    all: match goal with |- context [let (r, st2) := ?X in _] =>
+           destruct X as [rb sb] end.
+    all: cbn [fst snd] in Hb1, Hb2; subst rb.
+    all: destruct ra; cbn [fst snd]; [split; [reflexivity|apply pop_equiv; exact Hb2]|].
+    all: destruct fin; cbn [fst snd]; split; try reflexivity; [apply pop_equiv; exact Hb2|exact Hb2].
+  Qed.
+
+  Lemma step_resp : ev_resp (eval_step fin fm tx pf ev).
+  Proof.
+    intros s1 s2 t H. destruct t; cbn [eval_step]; try (split; [reflexivity|exact H]).
+    - (* TSym *)
+      rewrite (ctx_lookup_feq s _ _ H). destruct (ctx_lookup s (frames s2)); [split; [reflexivity|exact H]|].
+      destruct (is_reserved s); cbn [fst snd]; split; try reflexivity; [exact H|apply ctx_set_equiv; exact H].
+    - (* TOp1 *)
+      destruct (Hev s1 s2 t H) as [Hr Hs].
+      destruct (ev s1 t) as [r1 a1], (ev s2 t) as [r2 a2]. cbn [fst snd] in *. subst r2.
+      destruct r1; split; try reflexivity; exact Hs.
+    - (* TOp2 *)
+      assert (Hgen : forall (rb : res) (a1 a2 : state), sequiv a1 a2 ->
+                 let body := fun (st1 : state) =>
+                   match rb with
+                   | Err k => (Err k, st1)
+                   | Ok vb =>
+                       let (ra, st2) := ev st1 t1 in
+                       match ra with
+                       | Err k => (Err k, st2)
+                       | Ok va =>
+                           match o with
+                           | At => match va with
+                                   | TSym _ | TFn _ _ _ _ | TPy _ _ => ev st2 (TFn true va (Some (at_args vb)) 1)
+                                   | _ => (apply2 o va vb, st2)
+                                   end
+                           | _ => (apply2 o va vb, st2)
+                           end
+                       end
+                   end in
+                 fst (body a1) = fst (body a2) /\ sequiv (snd (body a1)) (snd (body a2))).
+      { intros rb a1 a2 Ha. cbn zeta. destruct rb as [vb|k]; [|split; [reflexivity|exact Ha]].
+        destruct (Hev a1 a2 t1 Ha) as [Hr Hs].
+        destruct (ev a1 t1) as [ra b1], (ev a2 t1) as [ra' b2]. cbn [fst snd] in *. subst ra'.
+        destruct ra as [va|k]; [|split; [reflexivity|exact Hs]].
+        destruct o; try (split; [reflexivity|exact Hs]).
+        destruct va; try (split; [reflexivity|exact Hs]); apply Hev; exact Hs. }
+      destruct (Hev s1 s2 t2 H) as [Hr Hs].
+      destruct (ev s1 t2) as [rb a1], (ev s2 t2) as [rb' a2]. cbn [fst snd] in *. subst rb'.
+      destruct o; try exact (Hgen rb a1 a2 Hs).
+      (* Define *)
+      destruct rb as [vb|k]; [|split; [reflexivity|exact Hs]].
+      destruct t1; cbn [fst snd]; split; try reflexivity; try exact Hs. apply ctx_set_equiv. exact Hs.
+    - (* TFn *)
+      destruct iscall; [|split; [reflexivity|exact H]]. apply eval_fn_resp. exact H.
+    - (* TCond *)
+      destruct (callv_resp s1 s2 t1 H) as [Hr Hs].
+      destruct (callv ev s1 t1) as [rc a1], (callv ev s2 t1) as [rc' a2]. cbn [fst snd] in *. subst rc'.
+      destruct rc as [q|k]; [|split; [reflexivity|exact Hs]].
+      destruct (truthy tx q); apply callv_resp; exact Hs.
+    - (* TSeq *)
+      destruct l as [|y l]; [split; [reflexivity|exact H]|].
+      destruct (callv_resp s1 s2 y H) as [Hr Hs].
+      destruct (callv ev s1 y) as [ry a1], (callv ev s2 y) as [ry' a2]. cbn [fst snd] in *. subst ry'.
+      destruct ry as [v|k]; [apply eval_seq_resp; exact Hs|split; [reflexivity|exact Hs]].
+  Qed.
+End StepResp.
+
+Lemma eval_resp fin fm tx pf fuel : ev_resp (eval fin fm tx pf fuel).
+Proof.
+  induction fuel as [|f IH]; intros s1 s2 t H; cbn [eval].
+  - split; [reflexivity|exact H].
+  - apply step_resp; assumption.
+Qed.
+
+(* agreement level by level (what C03_frames speaks about) gives sequiv *)
+Lemma lvl_sequiv : forall fr fr', length fr = length fr' -> (forall v j, lvl fr' j v = lvl fr j v) -> Forall2 feq fr fr'.
+Proof.
+  induction fr as [|f r IH]; intros [|f' r'] HL H; try discriminate; constructor.
+  - intros v. specialize (H v (length r)). cbn [lvl] in H. cbn [length] in HL. injection HL as HL.
+    rewrite <- HL, Nat.eqb_refl in H. symmetry. exact H.
+  - cbn [length] in HL. injection HL as HL. apply IH; [exact HL|].
+    intros v j. destruct (Nat.eqb_spec j (length r)) as [E|E].
+    + rewrite (lvl_out r) by lia. rewrite (lvl_out r') by lia. reflexivity.
+    + specialize (H v j). cbn [lvl] in H. rewrite <- HL in H. destruct (Nat.eqb_spec j (length r)); [contradiction|]. exact H.
+Qed.
+
+(* a failed (or any) evaluation that wrote nothing: every follow-up program evaluates as if it had not happened *)
+Lemma resume_after_silent fm tx pf fuel st e r st' fuel2 e2 :
+  eval true fm tx pf fuel st e = (r, st') -> log st' = log st ->
+  fst (eval true fm tx pf fuel2 st' e2) = fst (eval true fm tx pf fuel2 st e2) /\
+  sequiv (snd (eval true fm tx pf fuel2 st' e2)) (snd (eval true fm tx pf fuel2 st e2)).
+Proof.
+  intros H HL. apply eval_resp. unfold sequiv.
+  destruct (frames_restored _ _ _ _ _ _ _ _ H) as (N & w & L & R & _).
+  rewrite HL in L. assert (w = []).
+  { destruct w; [reflexivity|]. apply (f_equal (@length _)) in L. rewrite app_length in L. cbn in L. lia. }
+  subst w. apply lvl_sequiv; [exact N|]. intros v j. symmetry. apply R. intros [].
+Qed.
